@@ -413,6 +413,6 @@ MonReg reg({"C09", "exploration",
 			"alternating, all, last only, random sparse/dense; 1..5 successive deletions; exhaustively every non-empty subset of meshes with 1..5 (quick) / 1..7 (thorough) vertices in "
 			"six versions, skinned and unskinned. Oracle vs reference model: survivors in order with bit-identical positions/UVs/normals/tangents/colours/eye data/vertex weights; "
 			"triangle list == filtered, re-indexed originals in order; NiSkinData weights and LOCKEDNORM lists restricted and re-indexed; every index in triangles, strips, skin weights, "
-			"partition maps in range; counters equal sizes; C10 partition invariants; FO4 segment table partitions the triangles and labels survive; geometry stable across save+reload.",
+			"partition maps in range; counters equal sizes; C10 partition invariants; FO4 segment table partitions the triangles and labels survive; geometry stable across save+reload and every per-vertex attribute read back from the saved file equals the model after the deletions (exact for NiGeometry data, storage tolerance for BSTriShape); partition bones/weights still agree with NiSkinData where they did before.",
 			[] { Plan p = plan(); return realSamples().size() * p.realRounds + 6 * 2 * (size_t)p.exhMax + p.api; }, run, 8, 300.0, false, false, nullptr});
 } // namespace
